@@ -1,5 +1,8 @@
 import ApdVerif.Model.Arith
 import ApdVerif.Model.Conv
+import ApdVerif.Model.Dispatch
+import ApdVerif.Oracle.Roots
+import ApdVerif.Spec.Specials
 import ApdVerif.Spec.Order
 import ApdVerif.Oracle.Exact
 import ApdVerif.Oracle.Ops
@@ -15,27 +18,6 @@ structure Stats where
   bad : Nat := 0        -- unparsable lines
   mismatch : Nat := 0
   propfail : Nat := 0
-
-/-- run a context operation of the model -/
-def runCtxOp (op : String) (c : Ctx) (x y : Dec) (iarg : Int) : Option Out :=
-  match op with
-  | "add" => some (addOp c x y false)
-  | "sub" => some (addOp c x y true)
-  | "mul" => some (mulOp c x y)
-  | "quo" => some (quoOp c x y)
-  | "quoint" => some (quoIntegerOp c x y)
-  | "rem" => some (remOp c x y)
-  | "abs" => some (absOp c x)
-  | "neg" => some (negOp c x)
-  | "round" => some (roundOp c x)
-  | "reduce" => some (reduceOp c x)
-  | "cmp" => some (cmpOp c x y)
-  | "quantize" => some (quantizeOp c x iarg)
-  | "rtie" => some (roundToIntegralExactOp c x)
-  | "rtiv" => some (roundToIntegralValueOp c x)
-  | "ceil" => some (ceilOp c x)
-  | "floor" => some (floorOp c x)
-  | _ => none
 
 /-- exact mathematical result of an exactly-rounded operation on finite operands -/
 def exactOf (op : String) (c : Ctx) (x y : Dec) : Option Exact :=
@@ -77,16 +59,19 @@ def handleCtxOp (id : String) (t : List String) : Option (List String × Nat × 
     let erri ← parseErr errs
     let auxi ← auxs.toInt?
     let impl : Out := { d := di.d, fl := Cond.ofNat fli, err := erri, aux := auxi }
+    -- a result is delivered with a nil error or with a trap error explained by the returned flags; a
+    -- composite function that returns the error of an internal step (flags 0) leaves d untouched
+    let delivered : ErrKind → Bool := fun e => e == .none || (e == .trap && (Cond.ofNat fli &&& c.traps).any)
     let mut out : List String := []
     let mut mm := 0
     let mut pf := 0
     -- model correspondence, by projection
     match runCtxOp op c x.d y.d iarg with
-    | none => out := out ++ [s!"{id} NOMODEL {op}"]
+    | none => if oracleOnlyOps.contains op then pure () else out := out ++ [s!"{id} NOMODEL {op}"]
     | some m =>
       let mut projs : List String := []
       if m.err != impl.err then projs := projs ++ ["err"]
-      if delivered m.err && delivered impl.err then
+      if (m.err == .none || (m.err == .trap && (m.fl &&& c.traps).any)) && delivered impl.err then
         if m.fl != impl.fl then projs := projs ++ ["flags"]
         if !valueEq m.d impl.d then projs := projs ++ ["value"]
         else if m.d != impl.d then projs := projs ++ ["repr"]
@@ -127,6 +112,11 @@ def handleCtxOp (id : String) (t : List String) : Option (List String × Nat × 
             pf := pf + 1; out := out ++ [s!"{id} PROPFAIL C02 inexact without rounded"]
           if f.overflow && !f.inexact then
             pf := pf + 1; out := out ++ [s!"{id} PROPFAIL C02 overflow without inexact"]
+      match Apd.Spec.specials op x.d y.d with
+      | some e =>
+        if !(e.meets impl.d impl.fl) then
+          pf := pf + 1; out := out ++ [s!"{id} PROPFAIL C08 special-value rule: expected form={repr e.form} neg={repr e.neg} invalid={e.invalid} divByZero={e.divByZero} divUndefined={e.divUndefined}"]
+      | none => pure ()
       for (prop, why) in opOracle op c x.d y.d iarg impl do
         pf := pf + 1; out := out ++ [s!"{id} PROPFAIL {prop} {why}"]
     pure (out, mm, pf)
@@ -417,6 +407,105 @@ def handleRel (id : String) (t : List String) : Option (List String × Nat × Na
     | _ => none
   | _ => none
 
+def singleRoundingOps : List String :=
+  ["add", "sub", "mul", "quo", "quoint", "rem", "abs", "neg", "round", "quantize", "rtie", "rtiv", "reduce", "cmp", "ceil", "floor"]
+
+/-- `traps op ctx x y iarg => out(T) out(0)` : the same call under trap set T and under no traps (C03) -/
+def handleTraps (id : String) (t : List String) : Option (List String × Nat × Nat) :=
+  match t with
+  | op :: p :: emax :: emin :: traps :: mode :: xs :: ys :: ia :: "=>" :: rest => do
+    let c ← parseCtx p emax emin traps mode
+    let c0 := { c with traps := {} }
+    let x := (← parseDec xs).d
+    let y ← if ys == "-" then some ({} : Dec) else (parseDec ys).map (·.d)
+    let iarg ← ia.toInt?
+    if rest == ["PANIC"] || rest == ["HANG"] then return propfail id "C04" "panic or hang"
+    match ← parseOuts rest with
+    | [oT, o0] =>
+      let mut res : List String × Nat × Nat := ([], 0, 0)
+      let dlv (cx : Ctx) (o : Out) : Bool := o.err == .none || (o.err == .trap && (o.fl &&& cx.traps).any)
+      let sameOut (cx : Ctx) (u v : Out) : Bool := u.err == v.err && (!(dlv cx u) || (u.fl == v.fl && u.d == v.d))
+      match runCtxOp op c x y iarg, runCtxOp op c0 x y iarg with
+      | some mT, some m0 =>
+        if !(sameOut c mT oT) then res := merge res ([s!"{id} MISMATCH traps model[T]= {showOut mT}"], 1, 0)
+        if !(sameOut c0 m0 o0) then res := merge res ([s!"{id} MISMATCH traps model[0]= {showOut m0}"], 1, 0)
+      | _, _ => if oracleOnlyOps.contains op then pure () else res := merge res ([s!"{id} NOMODEL {op}"], 0, 0)
+      -- the property, on the implementation's two outcomes
+      if singleRoundingOps.contains op then
+        let expErr : ErrKind :=
+          if o0.err != .none then o0.err
+          else if (o0.fl &&& c.traps).any then .trap else .none
+        if oT.err != expErr then
+          res := merge res (propfail id "C03" s!"error class {showErr oT.err}, expected {showErr expErr} (flags&traps / system limit)")
+        if (oT.err == .none || oT.err == .trap) && !(oT.d == o0.d && oT.fl == o0.fl) then
+          res := merge res (propfail id "C03" "result or flags under traps differ from the trap-free run")
+      else
+        if oT.err == .none && !(o0.err == .none && oT.d == o0.d && oT.fl == o0.fl) then
+          res := merge res (propfail id "C03" "nil error under traps but result/flags differ from the trap-free run")
+        if o0.err == .none && (o0.fl &&& c.traps).any && oT.err == .none then
+          res := merge res (propfail id "C03" "a trapped condition is raised but the error is nil")
+        if o0.err != .none && oT.err == .none then
+          res := merge res (propfail id "C03" "error without traps but none with traps")
+      return res
+    | _ => none
+  | _ => none
+
+def sentinelDec : Dec := { form := .finite, neg := true, exp := -40, coeff := 987654321 }
+
+def parseSteps : Nat → List String → Option (List (String × Dec × Dec × Int) × List String)
+  | 0, rest => some ([], rest)
+  | n+1, op :: xs :: ys :: ia :: rest => do
+    let x := (← parseDec xs).d
+    let y ← if ys == "-" then some ({} : Dec) else (parseDec ys).map (·.d)
+    let i ← ia.toInt?
+    let (tl, r) ← parseSteps n rest
+    pure ((op, x, y, i) :: tl, r)
+  | _, _ => none
+
+/-- `errdec ctx n (op x y iarg)^n => (d flags err)^n` : a sequence of ErrDecimal wrapper calls (C03) -/
+def handleErrDec (id : String) (t : List String) : Option (List String × Nat × Nat) :=
+  match t with
+  | p :: emax :: emin :: traps :: mode :: ns :: rest => do
+    let c ← parseCtx p emax emin traps mode
+    let n ← ns.toNat?
+    let (steps, rest) ← parseSteps n rest
+    match rest with
+    | "=>" :: outsS =>
+      if outsS == ["PANIC"] || outsS == ["HANG"] then return propfail id "C04" "panic or hang"
+      let outs ← parseOuts outsS
+      if outs.length != n then none
+      let mut res : List String × Nat × Nat := ([], 0, 0)
+      -- the abstract machine: sticky first error, accumulated flags, skip after error
+      let mut e : ED := { c := c }
+      let mut k := 0
+      let mut prev : Option Out := none
+      for ((op, x, y, i), o) in steps.zip outs do
+        k := k + 1
+        let wasFailed := e.failed
+        let mo : Out := match runCtxOp op e.c x y i with | some m => m | none => { err := .other }
+        let r := e.step sentinelDec (fun _ => mo)
+        e := r.1
+        let mErr := e.errOf
+        let modelKnown := (runCtxOp op c x y i).isSome
+        if modelKnown then
+          -- the destination is comparable when the step was skipped (untouched) or delivered a result
+          let dl := wasFailed || mo.err == .none || (mo.err == .trap && (mo.fl &&& c.traps).any)
+          if !(mErr == o.err && e.fl == o.fl && (!dl || r.2 == o.d)) then
+            res := merge res ([s!"{id} MISMATCH errdec step {k} model= {showDec r.2} {e.fl.toNat} {showErr mErr}"], 1, 0)
+        -- the property on the implementation: after an error, later destinations are untouched
+        match prev with
+        | some pv =>
+          if pv.err != .none then
+            if !(o.d == sentinelDec && o.fl == pv.fl && o.err == pv.err) then
+              res := merge res (propfail id "C03" s!"ErrDecimal step {k} ran after an error (destination touched or state changed)")
+          else if (pv.fl &&& o.fl) != pv.fl then
+            res := merge res (propfail id "C03" s!"ErrDecimal step {k} lost accumulated flags")
+        | none => pure ()
+        prev := some o
+      return res
+    | _ => none
+  | _ => none
+
 def handleLine (line : String) : Option (List String × Nat × Nat) :=
   match line.splitOn " " with
   | id :: "ctxop" :: rest => handleCtxOp id rest
@@ -427,6 +516,8 @@ def handleLine (line : String) : Option (List String × Nat × Nat) :=
   | id :: "reduced" :: rest => handleReduced id rest
   | id :: "modes" :: rest => handleModes id rest
   | id :: "rel" :: rest => handleRel id rest
+  | id :: "traps" :: rest => handleTraps id rest
+  | id :: "errdec" :: rest => handleErrDec id rest
   | _ => none
 
 partial def loop (h : IO.FS.Stream) (out : IO.FS.Stream) (st : Stats) : IO Stats := do
